@@ -52,8 +52,9 @@ type optCase struct {
 }
 
 func mark(m string) *jsonschema.Schema {
-	// the mark travels in "title": a jsonschema struct tag legitimately overwrites "description"
-	return &jsonschema.Schema{Type: "object", Title: m, Properties: map[string]*jsonschema.Schema{"zz": {Type: "integer", Title: m + "/zz"}, "aa": {Type: "string"}}}
+	// An override for an embedded struct may carry only "type" and "properties":
+	// the mark therefore travels in the property names.
+	return &jsonschema.Schema{Type: "object", Properties: map[string]*jsonschema.Schema{"zz_" + m: {Type: "integer"}, "aa_" + m: {Type: "string"}}}
 }
 
 var overrideTypes = map[string]reflect.Type{
@@ -125,8 +126,10 @@ func countMarks(s *jsonschema.Schema, marks map[reflect.Type]string) int {
 	}
 	n := 0
 	for p := range ps {
-		if ms[p.Title] {
-			n++
+		for m := range ms {
+			if _, ok := p.Properties["zz_"+m]; ok {
+				n++
+			}
 		}
 	}
 	return n
@@ -473,6 +476,30 @@ func outside(t reflect.Type, s *jsonschema.Schema, marks map[reflect.Type]string
 	case reflect.Map:
 		outside(t.Elem(), s.AdditionalProperties, marks, path+"/additionalProperties", report, seen)
 	case reflect.Struct:
+		// the members of an overridden embedded type are replaced by the override's properties
+		var walkEmb func(st reflect.Type)
+		walkEmb = func(st reflect.Type) {
+			for i := 0; i < st.NumField(); i++ {
+				sf := st.Field(i)
+				ft := sf.Type
+				for ft.Kind() == reflect.Pointer {
+					ft = ft.Elem()
+				}
+				if !sf.Anonymous || ft.Kind() != reflect.Struct || sf.Tag.Get("json") != "" {
+					continue
+				}
+				if m, ok := marks[ft]; ok {
+					for _, k := range []string{"zz_" + m, "aa_" + m} {
+						if _, has := s.Properties[k]; !has {
+							report(path, fmt.Sprintf("type %s embeds overridden %s but property %q of the override is missing (properties: %v)", t, ft, k, keysOf(s.Properties)))
+						}
+					}
+					continue
+				}
+				walkEmb(ft)
+			}
+		}
+		walkEmb(t)
 		for _, f := range gen.JSONFields(t) {
 			// does the field come from inside an overridden embedded type?
 			inside := false
